@@ -400,7 +400,18 @@ def run_shard(ctx):
                 other, case2 = build(r2, 'lower', r2.choice(['from', 'join', 'where-sub', 'cte', 'union', 'delete-qualified', 'qualified-cols']))
                 seq.append(other)
             seq.append(text)
-            kw = catalog(form0, case, default_ns)
+            if i % 8 == 0:
+                # an earlier statement's CTE named like a table that later statements read through the default namespace
+                ns = default_ns if default_ns in INTS else 'int1'
+                oth = [x for x in INTS if x != ns]
+                seq = [f'WITH tb_90 AS (SELECT s1.c FROM {oth[0]}.tb_91 AS s1 WHERE s1.k > 1) SELECT a1.c FROM tb_90 AS a1 JOIN {oth[1]}.tb_92 AS a2 ON a1.c = a2.k',
+                       f'SELECT a1.c FROM tb_90 AS a1 JOIN {oth[0]}.tb_93 AS a2 ON a1.k = a2.k',
+                       f'SELECT a1.c FROM {ns}.tb_90 AS a1 WHERE a1.k IN (SELECT s1.c FROM {oth[1]}.tb_94 AS s1)',
+                       f'SELECT a1.c FROM tb_90 AS a1 UNION SELECT a2.c FROM {oth[0]}.tb_95 AS a2'] + seq
+                kw_ns = ns
+            else:
+                kw_ns = default_ns
+            kw = catalog(form0, case, kw_ns)
             try:
                 planner = QueryPlanner(**kw)
             except Exception:
